@@ -630,3 +630,234 @@ def check_load_imm(rule, kind, root=None):
         else:
             rule.bad("%s|load_imm|stale|%s" % (kind, name2), "%s %s overwrites x%s (`%r`) but does not reset `%s`: a later load_imm of the cached constant skips the load and the clause reads a stale register" % (kind, name2, immreg[1], clob[0], field), "%s:%d" % (p, clob[0].ln))
     rule.ok("%s load_imm skips the load on a cache hit; %d routines that clobber x%s reset `%s`" % (kind, n_ok, immreg[1], field), file=p, line=fn["ln"])
+
+
+# ---------------------------------------------------------------------------
+# corner reductions (interval multiplication / division)
+
+_CORNER_NAMES = {(0, 0): "lhs.lower x rhs.lower", (0, 1): "lhs.lower x rhs.upper", (1, 0): "lhs.upper x rhs.lower", (1, 1): "lhs.upper x rhs.upper"}
+
+
+def _inline_call_helpers(b, builders):
+    """the builder's instruction stream with `self.call_fn_*(..)` helper calls expanded at their position
+    (helper parameters renamed to the arguments)"""
+    import copy
+
+    events = [(m["ln"], ins) for m, _head, ins in b.blocks]
+    for name, args, node in b.helper_calls:
+        h = builders.get(name)
+        if h is None or not name.startswith("call_fn"):
+            continue
+        ren = {}
+        for (pn, _ty), a in zip(h.params, args):
+            if isinstance(a, str):
+                ren["T:%s" % pn] = "T:%s" % a
+        ins = copy.deepcopy(M.flat_ins(h))
+        for x in ins:
+            for o in x.ops:
+                if o.kind == "vec" and o.name in ren:
+                    o.name = ren[o.name]
+        events.append((node["ln"], ins))
+    events.sort(key=lambda e: e[0])
+    out = []
+    for _ln, ins in events:
+        out.extend(ins)
+    return out
+
+
+def check_corner_reduction(rule, kind, root=None):
+    """Interval products and quotients take their bounds over four corner values, any of which can be NaN
+    (0 x inf, inf / inf) without the operands being NaN.  The interpreter skips such corners (f32::min / max
+    ignore a NaN operand); x86 `minps` / `maxps` do not - they return their *second* operand whenever either
+    is NaN.  The reduction is evaluated abstractly for every subset of NaN corners: each lane is "NaN" or "the
+    min / max over a set of corners"; at the end the lower bound must be the min and the upper bound the max
+    over all non-NaN corners, unless the path handed the operation to the Rust implementation."""
+    p = path_of(kind)
+    builders = M.load_builders(p, root)
+    for name in ("build_mul", "build_div"):
+        b = builders.get(name)
+        if b is None:
+            rule.lost("%s %s" % (kind, name))
+            continue
+        outp = out_param(b)
+        ins = _inline_call_helpers(b, builders)
+        succ, _probs = M.build_cfg(ins)
+        paths, cyclic = M.enumerate_paths(ins, succ)
+        if cyclic or not paths:
+            rule.lost("%s %s: loop-free instruction paths" % (kind, name))
+            continue
+        corners = [(i, j) for i in (0, 1) for j in (0, 1)]
+        masks = [frozenset(c for c, bit in zip(corners, bits) if bit) for bits in __import__("itertools").product((0, 1), repeat=4)]
+        n_checked = 0
+        findings = {}
+        saw_products = False
+        for path in paths:
+            idxs = [i for i in path if not isinstance(i, str)]
+            for mask in masks:
+                regs = {"T:lhs_reg": [("in", "L", 0), ("in", "L", 1), None, None], "T:rhs_reg": [("in", "R", 0), ("in", "R", 1), None, None]}
+                # builder parameter names may differ: take the two non-output u8 parameters in order
+                ins_params = [n_ for n_, ty in b.params if ty == "u8" and n_ != outp]
+                if len(ins_params) == 2:
+                    regs = {"T:%s" % ins_params[0]: [("in", "L", 0), ("in", "L", 1), None, None], "T:%s" % ins_params[1]: [("in", "R", 0), ("in", "R", 1), None, None]}
+                gpr = {}
+                flags = None
+                feasible = True
+                delegated = False
+                products = False
+
+                def get(o):
+                    return list(regs.get(o.name, [None] * 4))
+
+                def red(kind_, a_, b_):
+                    # x86 min / max: the second operand whenever either is NaN
+                    if a_ is None or b_ is None:
+                        return None
+                    if a_[0] == "nan" or b_[0] == "nan":
+                        return b_
+                    if a_[0] == "val" and b_[0] == "val" and a_[2] in (None, kind_) and b_[2] in (None, kind_):
+                        return ("val", a_[1] | b_[1], kind_)
+                    return None
+
+                for pos, i in enumerate(idxs):
+                    x = ins[i]
+                    if x.label is not None:
+                        continue
+                    m = x.mnem or ""
+                    ops = x.ops
+                    vec = [o for o in ops if o.kind == "vec"]
+                    if m in ("vpshufd", "pshufd") and len(vec) == 2 and ops[-1].kind == "imm":
+                        try:
+                            imm = int(_re.sub(r"(_?i8|_?u8)$", "", ops[-1].text.replace(" ", "").replace("asi8", "")), 0) & 0xFF
+                        except ValueError:
+                            regs[vec[0].name] = [None] * 4
+                            continue
+                        src = get(vec[1])
+                        regs[vec[0].name] = [src[(imm >> (2 * l_)) & 3] for l_ in range(4)]
+                    elif m in ("vmulps", "vdivps") and len(vec) == 3:
+                        a_, b_ = get(vec[1]), get(vec[2])
+                        lanes = []
+                        for l_ in range(4):
+                            va, vb = a_[l_], b_[l_]
+                            if va and vb and va[0] == "in" and vb[0] == "in" and {va[1], vb[1]} == {"L", "R"}:
+                                c = (va[2], vb[2]) if va[1] == "L" else (vb[2], va[2])
+                                lanes.append(("nan", c) if c in mask else ("val", frozenset([c]), None))
+                                products = True
+                            else:
+                                lanes.append(None)
+                        regs[vec[0].name] = lanes
+                    elif m in ("vminps", "vmaxps") and len(vec) == 3:
+                        a_, b_ = get(vec[1]), get(vec[2])
+                        regs[vec[0].name] = [red(m[1:4], a_[l_], b_[l_]) for l_ in range(4)]
+                    elif m in ("vminss", "vmaxss") and len(vec) == 3:
+                        a_, b_ = get(vec[1]), get(vec[2])
+                        regs[vec[0].name] = [red(m[1:4], a_[0], b_[0])] + a_[1:]
+                    elif m in ("vunpcklps",) and len(vec) == 3:
+                        a_, b_ = get(vec[1]), get(vec[2])
+                        regs[vec[0].name] = [a_[0], b_[0], a_[1], b_[1]]
+                    elif m in ("vcmpunordps", "cmpunordps") and len(vec) == 3 and vec[1].name == vec[2].name:
+                        src = get(vec[1])
+                        regs[vec[0].name] = [("isnan", bool(v and v[0] == "nan")) if v is not None and v[0] in ("nan", "val") else None for v in src]
+                    elif m in ("vmovmskps", "movmskps") and len(vec) == 1:
+                        src = get(vec[0])
+                        g = [o for o in ops if o.kind == "gpr"]
+                        if g and all(v is not None and v[0] == "isnan" for v in src):
+                            gpr[g[0].name] = ("mask", any(v[1] for v in src))
+                        elif g:
+                            gpr[g[0].name] = None
+                    elif m == "test" and len(ops) == 2 and all(o.kind == "gpr" for o in ops) and ops[0].name == ops[1].name:
+                        flags = gpr.get(ops[0].name)
+                    elif m in ("vptest", "ptest") and len(vec) == 2 and vec[0].name == vec[1].name:
+                        # ZF = (x AND x == 0): clear exactly when some lane of the comparison mask is set
+                        src = get(vec[0])
+                        flags = ("mask", any(v[1] for v in src)) if all(v is not None and v[0] == "isnan" for v in src) else None
+                    elif m in ("jnz", "jne", "jz", "je"):
+                        nxt = idxs[pos + 1] if pos + 1 < len(idxs) else None
+                        taken = nxt != i + 1
+                        if flags and flags[0] == "mask":
+                            nonzero = flags[1]
+                            want_taken = nonzero if m in ("jnz", "jne") else (not nonzero)
+                            if taken != want_taken:
+                                feasible = False
+                                break
+                    elif m.startswith("call"):
+                        for r_ in list(regs):
+                            if not r_.startswith("T:"):
+                                regs[r_] = [None] * 4
+                        regs["0"] = [("rust",), ("rust",), None, None]
+                        delegated = True
+                    elif m in ("vmovq", "movq") and len(vec) == 2:
+                        src = get(vec[1])
+                        regs[vec[0].name] = [src[0], src[1], None, None]
+                    elif m in ("vmovaps", "vmovups", "movaps") and len(vec) == 2:
+                        regs[vec[0].name] = get(vec[1])
+                    else:
+                        e = M.effect(x)
+                        for o in e.writes:
+                            if o.kind == "vec":
+                                regs[o.name] = [None] * 4
+                            elif o.kind == "gpr":
+                                gpr[o.name] = None
+                        if e.flags_w:
+                            flags = None
+                if not feasible or not products:
+                    continue
+                saw_products = True
+                n_checked += 1
+                out = regs.get("T:%s" % outp, [None] * 4)
+                if out[0] == ("rust",) and out[1] == ("rust",):
+                    continue
+                live = frozenset(corners) - mask
+                if not live:
+                    continue  # every corner NaN: any answer made of NaN corners is the NaN interval
+                good = out[0] is not None and out[1] is not None and out[0][0] == "val" and out[1][0] == "val" and out[0][1] == live and out[1][1] == live and out[0][2] in ("min", None) and out[1][2] in ("max", None)
+                if not good:
+                    key = tuple(sorted(mask))
+                    if key not in findings:
+                        def show(v):
+                            if v is None:
+                                return "?"
+                            if v[0] == "nan":
+                                return "NaN"
+                            if v[0] == "val":
+                                return "%s{%s}" % (v[2] or "", ", ".join(_CORNER_NAMES[c] for c in sorted(v[1])))
+                            return str(v)
+                        findings[key] = (show(out[0]), show(out[1]), x.ln)
+        if not saw_products:
+            rule.lost("%s %s: the four corner %s" % (kind, name, "products" if name == "build_mul" else "quotients"))
+            continue
+        if findings:
+            key = sorted(findings, key=lambda k: (len(k), k))[0]
+            lo, hi, _ln = findings[key]
+            rule.bad("%s|%s|nan-corner" % (kind, name), "%s %s: when the corner%s %s %s NaN (0 x inf or inf / inf - the operands themselves are not NaN) the result is [%s, %s] instead of the min / max over the remaining corners: minps / maxps return their second operand when either is NaN, so a corner is dropped (%d of the 15 NaN patterns give a wrong bound); the interpreter skips NaN corners" % (kind, name, "s" if len(key) > 1 else "", ", ".join(_CORNER_NAMES[c] for c in key), "are" if len(key) > 1 else "is", lo, hi, len(findings)), "%s:%d" % (p, b.fn["ln"]))
+        else:
+            rule.ok("%s %s: bounds are the min / max over the non-NaN corners on every path (%d path x NaN-pattern cases)" % (kind, name, n_checked), file=p, line=b.fn["ln"])
+
+
+def check_callee_save_dominates(rule, kind, root=None):
+    """The backup of r12-r15 is emitted once, by whichever clause first needs it, and a flag stops later
+    clauses from emitting it again.  A clause that calls out only on a *conditional* path (a fallback behind a
+    forward jump) must therefore emit the backup before its first instruction: emitted inside the skipped
+    region it may never run, while every later call site believes the registers were saved."""
+    p = path_of(kind)
+    builders = M.load_builders(p, root)
+    n = 0
+    for name, b in sorted(builders.items()):
+        calls = [(nm, node) for nm, _a, node in b.helper_calls if nm.startswith("call_fn")]
+        if not calls or not b.blocks:
+            continue
+        first_block_ln = min(m["ln"] for m, _h, _i in b.blocks)
+        for nm, node in calls:
+            # a forward jump in an earlier block whose label is defined in a later block passes over the call
+            before = [x for m, _h, ins in b.blocks if m["ln"] < node["ln"] for x in ins]
+            after_labels = {x.label for m, _h, ins in b.blocks if m["ln"] > node["ln"] for x in ins if x.label is not None}
+            skipping = [x for x in before if x.label is None and M.effect(x).kind in ("jcc", "jmp") and x.ops and x.ops[0].kind == "label" and x.ops[0].name in after_labels]
+            if not skipping:
+                continue
+            n += 1
+            saves = [node2 for nm2, _a2, node2 in b.helper_calls if nm2 == "ensure_callee_regs_saved" and node2["ln"] < first_block_ln]
+            if saves:
+                rule.ok("%s %s: the callee-saved backup is emitted before the branch that can skip its call to %s" % (kind, name, nm), file=p, line=node["ln"])
+            else:
+                rule.bad("%s|%s|callee-save" % (kind, name), "%s %s calls %s only on a conditional path (`%r` can jump over it) but does not call ensure_callee_regs_saved() before its first instruction: the one-time backup of r12-r15 would be emitted inside the skipped region, and later call sites - which see the flag set - would restore registers that were never saved" % (kind, name, nm, skipping[0]), "%s:%d" % (p, node["ln"]))
+    if n == 0:
+        rule.ok("%s: no clause calls out on a conditional path" % kind, file=p)
